@@ -5,6 +5,10 @@ import ParryModel.C16.Model
 
 * `triangulate n x0 y0 …`                         → `none` | `some k a0 b0 c0 a1 b1 c1 …`   (`TriMesh::from_polygon`)
 * `hertel_mehlhorn n x0 y0 … k a0 b0 c0 …`        → `m len0 i… len1 i… …`                  (`hertel_mehlhorn_idx`)
+* `hertel_mehlhorn_pts n x0 y0 … k a0 b0 c0 …`    → `m len0 x y … len1 x y … …`            (`hertel_mehlhorn`)
+* `decompose n x0 y0 …`                           → `none` | `cnone` | `shapes m (T a b c | P k points… normals…)*`
+                                                     (`Compound::decompose_trimesh(&TriMesh::from_polygon(..)?)`)
+* `decompose_tris n x0 y0 … k a0 b0 c0 …`         → same                (`Compound::decompose_trimesh(&TriMesh::new(..))`)
 
 Oracles (exact `Rat`, independent of the model): input classification (simple? orientation?) by exact segment
 predicates; output judged as a tiling: count, index range, every triangle counter-clockwise, Σ area = polygon area,
@@ -171,8 +175,140 @@ def oracleHM (poly : Array (V2 Rat)) (tris : Array (Nat × Nat × Nat)) (out : L
       if !(boundary.all outE.contains) then "fail boundary-edge-lost" else
       if !(outE.all inE.contains) then "fail piece-edge-not-from-input" else "pass"
 
+/-! ## `hertel_mehlhorn` (points) and `Compound::decompose_trimesh` -/
+
+def fpts (p : Array (V2 Float)) : String := p.foldl (fun s v => s ++ " " ++ fv2 v) s!"{p.size}"
+
+/-- `cnone` | `shapes m (T a b c | P k points… normals…)*` -/
+def fcompound : Option (List (Piece Float)) → String
+  | none => "cnone"
+  | some l => l.foldl (fun s p => match p with
+      | .triangle a b c => s ++ s!" T {fv2 a} {fv2 b} {fv2 c}"
+      | .polygon pts nrm => nrm.foldl (fun s v => s ++ " " ++ fv2 v) (s ++ " P " ++ fpts pts)) s!"shapes {l.length}"
+
+def ppts : P (List (V2 Float)) := plist pv2
+
+/-- parser of the `shapes …` output: `(points, normals)` per shape (`normals = []` for triangles) -/
+def pshapes : P (List (List (V2 Float) × List (V2 Float))) := do
+  let m ← pnat
+  let rec go : Nat → P (List (List (V2 Float) × List (V2 Float)))
+    | 0 => pure []
+    | k + 1 => do
+      let t ← tok
+      let sh ← (if t = "T" then do
+                  let a ← pv2; let b ← pv2; let c ← pv2; pure ([a, b, c], [])
+                else if t = "P" then do
+                  let pts ← ppts
+                  let rec nr : Nat → P (List (V2 Float))
+                    | 0 => pure []
+                    | j + 1 => do let v ← pv2; let vs ← nr j; pure (v :: vs)
+                  let ns ← nr pts.length
+                  pure (pts, ns)
+                else failure)
+      let rest ← go k
+      pure (sh :: rest)
+  go m
+
+def isVertexOf (poly : Array (V2 Rat)) (v : V2 Rat) : Bool := poly.any fun w => w.x == v.x && w.y == v.y
+
+def sqDiam (poly : Array (V2 Rat)) : Rat :=
+  let (a, b, c, d) := bbox poly.toList
+  (b - a) * (b - a) + (d - c) * (d - c)
+
+/-- On a lattice polygon (coordinates `k/4`) of squared diameter `< 300` no non-collinear corner can be pruned by
+`from_convex_polyline` (pruning needs a turn below `1.73e-4` rad, but `sin(turn) ≥ (1/16)/L² > 2e-4`), exactly collinear
+ones are: every piece keeps its area exactly and is never rejected. -/
+def noPruningPossible (poly : Array (V2 Rat)) : Bool :=
+  poly.all (fun v => (v.x * 4).den == 1 && (v.y * 4).den == 1) && decide (sqDiam poly < 300)
+
+/-- common judgement of a list of convex pieces against the area `A` they must tile; `tol` = allowed area deficit -/
+def judgePieces (poly : Array (V2 Rat)) (A tol sl : Rat) (P : List (List (V2 Rat))) : String :=
+  if P.any (fun p => p.length < 3) then "fail piece-with-fewer-than-3-vertices" else
+  if P.any (fun p => p.any fun v => !(isVertexOf poly v)) then "fail piece-vertex-not-an-input-vertex" else
+  if !(P.all (isConvexCcw sl)) then "fail piece-not-convex-ccw" else
+  if !(allDisjoint sl P) then "fail pieces-overlap" else
+  let S := (P.map shoelace2).foldl (· + ·) 0
+  if S > A + sl * P.length then "fail area-exceeds-input" else
+  if A - S > tol then s!"fail area-not-conserved deficit2={A - S}" else "pass"
+
+def oracleHMPts (poly : Array (V2 Rat)) (tris : Array (Nat × Nat × Nat)) (out : List String) : String :=
+  let n := poly.size
+  if tris.any (fun (a, b, c) => a ≥ n || b ≥ n || c ≥ n) then "skip bad-input-index" else
+  let T := tris.toList.map fun (a, b, c) => [poly.getD a ⟨0,0⟩, poly.getD b ⟨0,0⟩, poly.getD c ⟨0,0⟩]
+  if !(T.all (isConvexCcw 0)) then "skip input-triangle-not-ccw" else
+  if !(allDisjoint 0 T) then "skip input-triangles-overlap" else
+  let A := (T.map shoelace2).foldl (· + ·) 0
+  match out with
+  | "panic" :: _ => "fail panic"
+  | _ =>
+    match run (do let p ← plist ppts; pend; pure p) out with
+    | none => "fail unparsable-output"
+    | some pieces => judgePieces poly A 0 (slackOf poly) (pieces.map fun p => p.map q2)
+
+/-- unit outward normals of a counter-clockwise polygon shape (the normal of a kept vertex is the one of its *original*
+outgoing edge, which pruning leaves within `2e-4` rad of the kept edge) -/
+def normalsOk (pts nrm : List (V2 Rat)) : Bool :=
+  nrm.length == pts.length &&
+  ((edgesOf pts).zip nrm).all fun (e, n) =>
+    let d := e.2.sub e.1
+    let nn := n.dot n
+    decide (rabs (nn - 1) ≤ 1 / 1000000000) &&
+    decide ((n.dot d) * (n.dot d) ≤ (d.dot d) / 1000000) &&
+    decide (d.x * n.y - d.y * n.x < 0)
+
+def oracleDecompose (poly : Array (V2 Rat)) (A : Rat) (out : List String) : String :=
+  match out with
+  | "panic" :: _ => "fail panic"
+  | ["cnone"] =>
+    if noPruningPossible poly then "fail compound-none-for-well-conditioned-tiling"
+    else "skip compound-none(sliver-piece-possible)"
+  | "shapes" :: rest =>
+    match run (do let p ← pshapes; pend; pure p) rest with
+    | none => "fail unparsable-output"
+    | some shapes =>
+      let P := shapes.map fun s => s.1.map q2
+      if !(shapes.all fun s => s.2.isEmpty || normalsOk (s.1.map q2) (s.2.map q2)) then "fail bad-normals" else
+      let tol : Rat := if noPruningPossible poly then 0
+        else ((P.flatMap fun p => (edgesOf p).map fun e => (e.2.sub e.1).dot (e.2.sub e.1)).foldl (· + ·) 0) / 1000
+      judgePieces poly A tol (slackOf poly) P
+  | _ => "fail unparsable-output"
+
 def handler (fn : String) : Option Handler :=
   match fn with
+  | "hertel_mehlhorn_pts" => some {
+      model := fun a => run (do let poly ← plist pv2; let t ← ptris; pend
+                                let r := hertelMehlhorn poly.toArray t
+                                pure (r.foldl (fun s p => s ++ " " ++ fpts p) s!"{r.size}")) a
+      oracle := fun a o => match run (do let poly ← plist pv2; let t ← ptris; pure (poly, t)) a with
+        | some (poly, t) => oracleHMPts (poly.map q2).toArray t o
+        | none => "skip bad-args" }
+  | "decompose" => some {
+      model := fun a => run (do let poly ← plist pv2; pend
+                                pure (match triangulateEarClipping poly.toArray with
+                                      | none => "none"
+                                      | some t => fcompound (decomposeTrimesh poly.toArray t))) a
+      oracle := fun a o => match run (plist pv2) a with
+        | some poly =>
+          let poly := (poly.map q2).toArray
+          if o = ["none"] then "skip triangulation-none" else
+          if !(isSimple poly) then "skip non-simple-input" else
+          let A := shoelace2 poly.toList
+          if A ≤ 0 then "skip not-counter-clockwise" else oracleDecompose poly A o
+        | none => "skip bad-args" }
+  | "decompose_tris" => some {
+      model := fun a => run (do let poly ← plist pv2; let t ← ptris; pend
+                                pure (if t.isEmpty then "none" else fcompound (decomposeTrimesh poly.toArray t))) a
+      oracle := fun a o => match run (do let poly ← plist pv2; let t ← ptris; pure (poly, t)) a with
+        | some (poly, tris) =>
+          let poly := (poly.map q2).toArray
+          let n := poly.size
+          if o = ["none"] then "skip empty-index-buffer" else
+          if tris.any (fun (a, b, c) => a ≥ n || b ≥ n || c ≥ n) then "skip bad-input-index" else
+          let T := tris.toList.map fun (a, b, c) => [poly.getD a ⟨0,0⟩, poly.getD b ⟨0,0⟩, poly.getD c ⟨0,0⟩]
+          if !(T.all (isConvexCcw 0)) then "skip input-triangle-not-ccw" else
+          if !(allDisjoint 0 T) then "skip input-triangles-overlap" else
+          oracleDecompose poly ((T.map shoelace2).foldl (· + ·) 0) o
+        | none => "skip bad-args" }
   | "triangulate" => some {
       model := fun a => run (do let poly ← plist pv2; pend
                                 pure (match triangulateEarClipping poly.toArray with
